@@ -231,7 +231,11 @@ def h : Handler := fun op j =>
         match j.getObjVal? (k ++ "_unc"), v with
         | .ok u, .qty q => do pure (.uncertain q (← asRat u))
         | _, _ => pure (.plain v)
-      out showBool (allcloseU (← mu "a") (← mu "b") (← getRat j "rtol") (← getPyOpt j "atol"))
+      let atol : Option (MaybeUncertain Q) ← match j.getObjVal? "atol" with
+        | .ok .null => pure none
+        | .ok _ => do pure (some (← mu "atol"))
+        | .error _ => .error "!bad-arg:atol"
+      out showBool (allcloseU (← mu "a") (← mu "b") (← getRat j "rtol") atol)
   | "compare_equality_c" => do
       let a ← match j.getObjVal? "a" with | .ok v => asCVal v | .error _ => .error "!bad-arg:a"
       let b ← match j.getObjVal? "b" with | .ok v => asCVal v | .error _ => .error "!bad-arg:b"
